@@ -2059,7 +2059,7 @@ func (e *enc) makeInterface(x *ssa.MakeInterface) {
 	}
 	// boxing a Go value: an object id whose payload is recoverable by type assertion to the same sort
 	s := e.so.of(x.X.Type())
-	box := e.uf("box_"+clean(s), []string{s}, "Int")
+	box := e.uf(fmt.Sprintf("box_%s_t%d", clean(s), e.typeTag(x.X.Type())), []string{s}, "Int") // one boxing function per Go type: equal payloads of different types are different interface values
 	unbox := e.uf("unbox_"+clean(s), []string{"Int"}, s)
 	tag := e.uf("dyntag", []string{"Int"}, "Int")
 	v := e.value(x.X)
